@@ -359,6 +359,63 @@ def run_refill(case, ctx, mon):
 
 
 # -------------------------------------------------------------------------------------------------
+def run_fork(case, ctx, mon):
+    """A process holding a used log sketch forks; parent and child both go on adding.  The buffered draws are inherited, but every
+    batch replenished after the fork must be new in each process (identical replenished batches = the same draws served twice)."""
+    import hashlib
+    import json
+    import select
+    import signal
+
+    kind = case["kind"]
+    s_ = mk(kind, 10**6 if kind == "log8" else 2**32 - 1, 0)
+    for _ in range(3000):
+        s_.add(b"k")
+
+    def batches(n):
+        out, last = [], None
+        for _ in range(n):
+            s_.add(b"k")
+            h = hashlib.md5(np.asarray(s_.rand_nums).tobytes()).hexdigest()[:12]
+            if h != last:
+                out.append(h)
+                last = h
+        return out
+
+    rfd, wfd = os.pipe()
+    pid = os.fork()
+    if pid == 0:
+        try:
+            os.close(rfd)
+            os.write(wfd, json.dumps(batches(case["adds"])).encode())
+        finally:
+            os._exit(0)
+    os.close(wfd)
+    mine = batches(case["adds"])
+    buf = b""
+    ready, _, _ = select.select([rfd], [], [], 120)
+    if ready:
+        while True:
+            chunk = os.read(rfd, 65536)
+            if not chunk:
+                break
+            buf += chunk
+    else:
+        os.kill(pid, signal.SIGKILL)
+    os.close(rfd)
+    os.waitpid(pid, 0)
+    if not buf:
+        mon.inconclusive.append("forked child did not report its draw batches within 120 s")
+        return
+    child = json.loads(buf.decode())
+    common_later = sorted(set(mine[1:]) & set(child[1:]))
+    mon.check(len(mine) >= 3 and len(child) >= 3, "harness:both-processes-replenished-at-least-twice", parent=len(mine), child=len(child))
+    mon.check(not common_later, "batches-replenished-after-a-fork-are-new-in-each-process", shared_batches=common_later[:4], parent=mine[:5], child=child[:5], kind=kind)
+    mon.count("fork_cases")
+    mon.count("batches_replenished_after_fork", len(mine) + len(child) - 2)
+    mon.nontrivial(True)
+
+
 def gen_cases(ctx):
     rng = ctx.rng("cases")
     q = ctx.quick
@@ -409,6 +466,8 @@ def gen_cases(ctx):
                 v = pick(rng, [65536, 65536 + int(rng.integers(0, nr + 2)), 2**17, 2**17 + 3, 10**5, 2**16 - 1, 2**20 + int(rng.integers(0, 40))])
                 evs.insert(int(rng.integers(0, len(evs) + 1)), [int(rng.integers(0, 2)), ["add", hx(keys[int(rng.integers(0, len(keys)))]), v]])
         cases.append({"type": "lower", "cfg": cfg, "events": evs})
+    cases.append({"type": "fork", "kind": "log8", "adds": 20000})
+    cases.append({"type": "fork", "kind": "log16", "adds": 20000})
     cases.append({"type": "refill", "kind": "log8", "R": 25 if q else 250, "processes": True})
     cases.append({"type": "refill", "kind": "log16", "R": 25 if q else 250, "processes": False})
     for i, c in enumerate(cases):
@@ -422,7 +481,7 @@ def gen_cases(ctx):
 
 
 def run_case(case, ctx, mon):
-    {"reserved": run_reserved, "placed": run_placed, "law": run_law, "lower": run_lower, "refill": run_refill}[case["type"]](case, ctx, mon)
+    {"reserved": run_reserved, "placed": run_placed, "law": run_law, "lower": run_lower, "refill": run_refill, "fork": run_fork}[case["type"]](case, ctx, mon)
 
 
 def run(ctx, mon):
@@ -435,6 +494,7 @@ def replay(case, ctx, mon):
 
 
 def floors(mon, ctx):
+    mon.floor("batches replenished after a fork (parent + child)", mon.counters["batches_replenished_after_fork"], 8)
     for mc, nr in GRID["log8"]:
         mon.floor(f"log8 counter values placed for {mc}/{nr}", len(mon.classes[f"placed:log8:{mc}/{nr}"]), 256)
     mon.floor("log16 counter values placed", mon.counters["placed_counter_values:log16"], 5000)
